@@ -408,14 +408,28 @@ var exception_catch(var args) {
     return e->obj;
   }
   
-  /* Check Exception against Arguments */
+  /* Check Exception against Arguments. Comparing may itself raise and
+  ** handle exceptions in this thread (a Cmp method with a try/catch),
+  ** which overwrites the object and the message of the record: the scan
+  ** works on its own copy of the object and with a spare message String,
+  ** and puts both back afterwards. */
+  var obj = e->obj;
+  var msg = e->msg;
+  bool found = false;
+  e->msg = new_raw(String);
   foreach(arg in args) {
     /* objects of another type cannot be the exception listed here
     ** (and comparing them may itself raise) */
-    if (type_of(arg) is type_of(e->obj) and eq(arg, e->obj)) {
-      return e->obj;
+    if (type_of(arg) is type_of(obj) and eq(arg, obj)) {
+      found = true;
+      break;
     }
   }
+  del_raw(e->msg);
+  e->msg = msg;
+  e->obj = obj;
+  e->active = false;
+  if (found) { return obj; }
   
   /* No matches found. Propagate to outward block */
   if (e->depth >= 1) {
